@@ -9,7 +9,7 @@ import os
 
 from vlib import fsutil, ref, seqx, tables
 from vlib.model import Model
-from vlib.run import V
+from vlib.run import V, classify
 
 PROP = "C05"
 
@@ -53,7 +53,32 @@ class C05Spec(seqx.Spec):
         for side in ("s", "a"):
             out.append({"t": "RF", "key": ks[0], "side": side})
         out.append({"t": "RH", "val": "v2", "side": "a"})
+        # a write that is REJECTED (declared size missed): it is not a successful write, lookups must not see it
+        for side in ("s", "a"):
+            out.append({"t": "WREJ", "key": ks[0], "val": "v2", "side": side})
         return out
+
+    def apply(self, ctx, res, srv, cache, action, model, replay):
+        if action["t"] != "WREJ":
+            return seqx.apply_standard(self, ctx, res, srv, cache, action, model, replay)
+        v = self.values[action["val"]]
+        n, tag = v["n"], v["tag"]
+        pre = "sw_" if action["side"] == "s" else "aw_"
+        ro = srv.call({"op": pre + "open", "cache": cache, "key": action["key"], "opts": {"size": n + 3, "algorithm": v.get("algo", "sha256")}})
+        res["transitions"] += 1
+        if "ok" not in ro:
+            V.violation(res, "hist:rejected-write:open-%s" % classify(ro), "open failed: %r" % ro, dict(replay, reply=ro))
+            return ro
+        h = ro["ok"]["h"]
+        srv.call({"op": "w_write_all", "h": h, "data": {"gen": [n, tag]}})
+        rc = srv.call({"op": "w_commit", "h": h})
+        res["transitions"] += 2
+        if rc.get("err", {}).get("variant") != "SizeMismatch":
+            V.violation(res, "hist:rejected-write:%s" % classify(rc), "a commit that misses its declared size replied %r" % rc, dict(replay, reply=rc))
+        sri_ = ctx.sri(v.get("algo", "sha256"), ref.gen(n, tag))
+        if sri_ not in model.content and os.path.exists(os.path.join(cache, ref.content_rel(sri_))):
+            model.content[sri_] = ref.gen(n, tag)     # the bytes of a rejected commit may stay retrievable by address
+        return rc
 
     def observe(self, ctx, res, srv, cache, model, replay):
         from vlib.model import observe_and_check
